@@ -25,6 +25,9 @@ pub(crate) struct NumberLoop {
     name: Option<Ident>,
     body: Block,
     name_is_collision: bool,
+    /// the kind of `start + step` when it differs from the kind of `start`:
+    /// the counter must hold that kind from its first value on.
+    start_promotion: Option<NativeType>,
 }
 
 impl Dependencies for NumberLoop {
@@ -95,6 +98,19 @@ impl Compile for NumberLoop {
         let mut val_end = self.val_end.compile(state)?;
 
         result.append(&mut val_start);
+
+        // adding a zero of the wider kind promotes the first value without changing it
+        let zero = match self.start_promotion {
+            Some(NativeType::Int) => Some(instruction!(make_int "0")),
+            Some(NativeType::BigInt) => Some(instruction!(make_bigint "0")),
+            Some(NativeType::Float) => Some(instruction!(make_float "0.0")),
+            _ => None,
+        };
+
+        if let Some(zero) = zero {
+            result.push(zero);
+            result.push(instruction!(bin_op "+"));
+        }
 
         if self.name_is_collision {
             // the counter reuses a variable that is already visible in this function:
@@ -399,6 +415,16 @@ impl Parser {
 
         let inclusive = inclusive_or_exclusive.as_rule() == Rule::number_loop_inclusive;
 
+        let start_promotion = match (
+            start_ty.get_type_recursively(),
+            step_output_type.get_type_recursively(),
+        ) {
+            (TypeLayout::Native(start), TypeLayout::Native(counter)) if start != counter => {
+                Some(*counter)
+            }
+            _ => None,
+        };
+
         Ok(NumberLoop {
             body: body.unwrap(),
             name: name.map(|(name, _)| name),
@@ -407,6 +433,7 @@ impl Parser {
             val_end,
             inclusive,
             name_is_collision: name_is_collision.is_some(),
+            start_promotion,
         })
     }
 }
